@@ -2,6 +2,7 @@
 from lib import core, macro_check as mc
 
 LEVEL = 'other'
+BBH_FEATURES = ['macro']      # harness command families this check needs (fallback build, lib/core.py build_bbh)
 PROP = 'C16'
 CORR = 'bbh MacroProg::get_instr (memo + colour caches) = MacrosModel.macro_get_instr / stack_queries / stack_queries2'
 SIZES = [(2, 2), (3, 2), (2, 3), (3, 3)]
